@@ -157,7 +157,8 @@ class Play:
     def inject_proposal(self, v, before=False):
         rng = self.rng
         kind = rng.choice(["wrong-leader", "stale", "equivocate", "future", "far-future", "parent-mismatch", "view-not-above",
-                           "bad-qc-dup", "bad-qc-sub", "bad-qc-relabel", "bad-qc-nil", "unknown-qc-block", "skip-view"])
+                           "bad-qc-dup", "bad-qc-sub", "bad-qc-relabel", "bad-qc-nil", "unknown-qc-block", "skip-view",
+                           "fork", "fork", "fork-lock"])
         nm = self.fresh("X")
         ld = self.leader(v)
         parent, qc, view, prop = self.cur, self.curqc, v, ld
@@ -211,6 +212,14 @@ class Play:
         elif kind == "skip-view":
             view = v + 1
             prop = self.leader(view)
+        elif kind in ("fork", "fork-lock") and len(self.blocks) >= 2:
+            # a well-formed proposal of the right leader built on an OLDER certified block (with that
+            # block's certificate): exercises the lock / liveness branches of the vote rules and commit
+            # rules whose target is not newer than the committed block
+            cands = self.blocks[:-1]
+            b = cands[-2] if kind == "fork-lock" and len(cands) >= 2 else rng.choice(cands)
+            if f"Q_{b[0]}" in self.qcs:
+                parent, qc = b[0], f"Q_{b[0]}"
         self.L.append(f"block {nm} parent={parent} view={view} proposer={prop} qc={qc}")
         inert = " expect=inert" if kind.startswith("bad-qc") and qc != self.curqc else ""
         self.L.append(f"deliver propose {nm} from={prop}{inert}")
@@ -253,7 +262,8 @@ class Play:
         rng = self.rng
         ps = self.puppets()
         i = rng.choice(ps)
-        kind = rng.choice(["future", "far-future", "past", "copied-sig", "junk", "nil", "wrong-msgsig", "no-msgsig", "id-zero", "replay-own"])
+        kind = rng.choice(["future", "far-future", "past", "copied-sig", "junk", "nil", "wrong-msgsig", "no-msgsig", "id-zero", "replay-own",
+                           "multi-viewsig", "multi-viewsig"])
         x = self.fresh("jt")
         tv = v
         vs, ms = None, "nil"
@@ -263,7 +273,13 @@ class Play:
             tv = v + 1000
         elif kind == "past":
             tv = max(1, v - 1)
-        if kind == "copied-sig":
+        if kind == "multi-viewsig" and len(ps) >= 2:
+            # the sender's genuine view signature combined with another replica's: more than one signer
+            j = rng.choice([p for p in ps if p != i])
+            self.L.append(f"sign {i} view:{tv} {x}a")
+            self.L.append(f"sign {j} view:{tv} {x}b")
+            self.L.append(f"combine {i} {x}v {x}a {x}b")
+        elif kind == "copied-sig":
             j = rng.choice([p for p in ps if p != i] or [i])
             self.L.append(f"sign {j} view:{tv} {x}v")
         elif kind == "junk":
@@ -282,7 +298,7 @@ class Play:
             self.L.append(f"deliver timeout own.tmo.{v} from={i}")
             return
         self.L.append(f"timeout {x} id={tid} view={tv} viewsig={vs} msgsig={ms} qc={self.curqc}")
-        inert = " expect=inert" if kind in ("copied-sig", "junk", "nil", "id-zero") else ""
+        inert = " expect=inert" if kind in ("copied-sig", "junk", "nil", "id-zero", "multi-viewsig") else ""
         self.L.append(f"deliver timeout {x}{inert}")
 
     def inject_newview(self, v):
